@@ -158,3 +158,17 @@ Theorem C14_shutdown_tx_only_owner : forall f w s w',
   exec_op f w (OIfund s IShutdown) = Ok w' -> is_admin (if_owner (w_if w)) s = true \/ s = A_IFUND.
 Proof. exact shutdown_tx_only_owner. Qed.
 Print Assumptions C14_shutdown_tx_only_owner.
+
+(* TRANSACTION LEVEL, closed vAMM: a ClosePosition or a Liquidate on a closed vAMM fails - with any funds attached,
+   for any fault index - and returns the very same world *)
+Theorem C14_closed_vamm_close_tx : forall f w t v lim funds vm,
+  get_vamm w v = Ok vm -> v_open (vs vm) = false ->
+  step_f f w (OEngine t (EClosePosition v lim) funds) = (w, false).
+Proof. exact closed_vamm_close_tx. Qed.
+Print Assumptions C14_closed_vamm_close_tx.
+
+Theorem C14_closed_vamm_liquidate_tx : forall f w s v t lim funds vm,
+  get_vamm w v = Ok vm -> v_open (vs vm) = false ->
+  step_f f w (OEngine s (ELiquidate v t lim) funds) = (w, false).
+Proof. exact closed_vamm_liquidate_tx. Qed.
+Print Assumptions C14_closed_vamm_liquidate_tx.
